@@ -176,16 +176,24 @@ def c11b(ctx, tu):
                         at_end_edge = (0 if pol else 1) if op == "==" else (1 if pol else 0)
                         g = (bid, at_end_edge)
                 ok = g is not None and bool(derefs)
+                why = "the range iterator is dereferenced / advanced without having been compared with the end of the " \
+                      "range (reads past a range shorter than the element list)"
                 if ok:
                     bid, at_end_edge = g
                     ok = all(cfg.edge_dominates(lam, (bid, 1 - at_end_edge), b) for b, _, _ in derefs)
-                    # at the end: the element does not match
-                    rets = [(b["id"], e.get("x")) for b, e in lam.events() if e["e"] == "return"]
-                    fb = [b for b, x in rets if x == ["bool", False]]
-                    ok = ok and len(fb) == 1 and cfg.edge_dominates(lam, (bid, at_end_edge), fb[0])
+                    if ok:
+                        # at the end the element does not match: the step returns false, or records false in the
+                        # accumulator it shares with the fold (a captured boolean)
+                        rets = [(b["id"], e.get("x")) for b, e in lam.events() if e["e"] == "return"]
+                        fb = [b for b, x in rets if x == ["bool", False]]
+                        fa = [b["id"] for b, e in lam.events() if e["e"] == "assign" and e.get("op") == "=" and
+                              e.get("rhs") == ["bool", False]]
+                        at_end = [b for b in fb + fa if cfg.edge_dominates(lam, (bid, at_end_edge), b)]
+                        if not at_end:
+                            ok = None if not fb and not fa else False
+                            why = "at the end of the range the element step does not produce 'no match'"
                 ctx.ob("C11.b", name + " element step", ok, pattern=lam.pat, unit=tu.name, inst=lam.q,
-                       detail="" if ok else "the range iterator is dereferenced / advanced without having been compared "
-                       "with the end of the range (reads past a range shorter than the element list)")
+                       detail="" if ok else why)
     # ends_with: a range shorter than the element list does not match, otherwise the iterator is advanced to
     # size - n before anything is dereferenced.  Decided by interpreting the checker on every (size, n).
     class Advanced(Exception):
@@ -413,6 +421,16 @@ def c11d(ctx, tu):
 
             if it is None or found_var is None:
                 ctx.ob("C11.d", name, None, pattern=fn.pat, unit=tu.name, inst=fn.q, detail="loop variables not recognised")
+                continue
+            has_pop = any(ev["e"] == "call" and qe(ev) == "std::vector::pop_back" for b, ev in fn.events())
+            shrinks = any((ev["e"] == "incdec" and ev.get("op") == "--") or (ev["e"] == "call" and ev.get("op") == "--")
+                          for b, ev in fn.events())
+            if not has_pop and shrinks:
+                # the pending matchers are kept in another representation (a shrinking sub-range, an index): the
+                # swap-remove automaton below does not describe it
+                ctx.ob("C11.d", name, None, pattern=fn.pat, unit=tu.name, inst=fn.q,
+                       detail="the set of pending matchers is not maintained by swap-remove on a vector (pop_back): "
+                              "representation not recognised")
                 continue
             ex = Explorer(tu, classify, edge=edge, delta=delta)
             ex._relevant = {fn.id}
